@@ -685,6 +685,14 @@ func ToEntry(n Node) (e *Entry) {
 		if g == nil {
 			return newError(n, "unknown group: %s", s.Name)
 		}
+		if ms.usesInProgress[g] {
+			return newError(n, "grouping %s uses itself", g.Name)
+		}
+		if ms.usesInProgress == nil {
+			ms.usesInProgress = map[*Grouping]bool{}
+		}
+		ms.usesInProgress[g] = true
+		defer delete(ms.usesInProgress, g)
 		// We need to return a duplicate so we resolve properly
 		// when the group is used in multiple locations and the
 		// grouping has a leafref that references outside the group.
